@@ -50,7 +50,7 @@ class C14(Check):
     def configs(self, ctx):
         if ctx.tier == "quick":
             return list(QUICK_CFGS) + ["avx2-17-O2"]
-        return ["%s-%s-O2" % (i, s) for i in ALL_ISAS for s in ("14", "17")] + ["avx2-14-O2+CONTRACT_OPT=%d" % k for k in (-1, 1, 2)]
+        return ["%s-14-O2" % i for i in ALL_ISAS] + ["avx2-17-O2", "avx512-17-O2"] + ["avx2-14-O2+CONTRACT_OPT=%d" % k for k in (-1, 1, 2)]
 
     def plan(self, ctx):
         cfg = "GenPermute_%s.cfg" % ctx.tier
